@@ -234,7 +234,11 @@ def judge(chk, fmt, c, t, r, api, cfgname):
     S = dict(api["S"].get(cfgkey, {}))
     S["have_problem"] = api["F"].get(cfgkey, {}).get("have_problem", 0)
     have_warning = api["F"].get(cfgkey, {}).get("have_warning", 0)
-    if r["timeout"] or r["signal"] or r["exit"] not in (0, 1):
+    if r["timeout"]:   # twice over the watchdog limit: inconclusive here (termination is C14's clause), never a verdict
+        chk.inconclusive += 1
+        chk.harness_errors.append("gm2calc.x exceeded the watchdog limit twice (%s, %s): inconclusive" % (fmt, cfgkey))
+        return
+    if r["signal"] or r["exit"] not in (0, 1):
         fail(chk, "C15:abnormal-termination", "exit=%s signal=%s timeout=%s" % (r["exit"], r["signal"], r["timeout"]), fmt, c, t, r)
         return
     chk.conclusive += 1
